@@ -6,7 +6,7 @@
    arbitrary answer scripts (iterators yielding after None, lying size hints). *)
 From Coq Require Import ZArith List Bool Lia Permutation.
 From MV Require Import Ast Eval Scalar Machine Model Policy.
-From MV.Proofs Require Import Arith Logic Prim View OpsLocal Guards Drops DrainIt Retain CapHistory Core.
+From MV.Proofs Require Import Arith Logic Prim View OpsLocal Guards Drops DrainIt Retain CapHistory Core FilterIt.
 Import ListNotations.
 Open Scope Z_scope.
 
@@ -77,3 +77,42 @@ Proof.
 Qed.
 
 Print Assumptions C17_all_core_histories.
+
+(* ---- DrainFilter ---- *)
+(* next(), from ANY point of the traversal, for ANY predicate script (true / false / panic): it
+   yields exactly the next element the predicate accepts, keeps (compacted, in order) the ones it
+   rejected on the way, stops with `panicked` set when the predicate panics; `fnext_spec` is the
+   list-level description: (newly kept, result, how far pos advances, rest of the script) *)
+Theorem C17_drain_filter_next_follows_the_script :
+  forall cfg, cfg_ok cfg ->
+  forall rest fuel f s b orig kept,
+  finv cfg s f b orig kept -> skipn (Z.to_nat (f_pos f)) orig = rest -> (List.length rest < fuel)%nat ->
+  let '(k, r, n, sc') := fnext_spec rest (f_pred f) in
+  exists s' f',
+    filter_next cfg fuel f s = (Val (to_fstep r, f'), s') /\
+    finv cfg s' f' b orig (kept ++ k) /\ fframe s s' b /\
+    f_vec f' = f_vec f /\ f_old f' = f_old f /\
+    f_pos f' = f_pos f + Z.of_nat n /\ f_pred f' = sc' /\ (r = RPanic -> f_panicked f' = true) /\
+    match r with RYield e => nth_error orig (Z.to_nat (f_pos f') - 1) = Some e | _ => True end.
+Proof. exact filter_next_spec. Qed.
+
+(* Drop for DrainFilter from ANY point, ANY predicate script: the vector is the kept elements
+   followed -- only when the predicate panics -- by the untested rest; exactly the elements accepted
+   from here on are destroyed, once; it returns iff the predicate does not panic; after a predicate
+   panic seen by next() only the guard runs.  (Destructors of accepted elements assumed not to panic.) *)
+Theorem C17_drain_filter_drop_any_point_any_script :
+  forall cfg, cfg_ok cfg -> needs_drop cfg = true ->
+  forall s f b orig kept,
+  finv cfg s f b orig kept -> NoDup orig ->
+  let rest := skipn (Z.to_nat (f_pos f)) orig in
+  if f_panicked f then
+    post (filter_drop cfg f s) (fun _ s' => filter_done cfg s s' f b (kept ++ rest) []) (fun _ => False)
+  else
+    let '(k, y, u, p) := fall_spec rest (f_pred f) in
+    (forall e, In e y -> mem e (drop_panics s) = false) ->
+    post (filter_drop cfg f s)
+      (fun _ s' => p = false /\ filter_done cfg s s' f b (kept ++ k ++ u) y)
+      (fun s' => p = true /\ filter_done cfg s s' f b (kept ++ k ++ u) y).
+Proof. exact filter_drop_spec. Qed.
+
+Print Assumptions C17_drain_filter_drop_any_point_any_script.
